@@ -119,7 +119,9 @@ def run(ctx):
     writers = {}
     for m in iq.methods.values():
         for s in F.assigned_attrs(m.node, '_unfinished_items'):
-            writers.setdefault(m.name, []).append(norm_text(s))
+            st_ = U.step_of(s)
+            writers.setdefault(m.name, []).append('self._unfinished_items %s= %d' % ('+' if st_[1] > 0 else '-', abs(st_[1]))
+                                                   if st_ is not None and U.is_self_attr(st_[0], '_unfinished_items') else norm_text(s))
     want = {'__init__': ['self._unfinished_items = 0'], 'put_item': ['self._unfinished_items += 1'],
             'item_done': ['self._unfinished_items -= 1']}
     ck.expect(writers == want, 'C13-D2', IQ, 'writers of _unfinished_items: %s' % writers,
@@ -131,7 +133,7 @@ def run(ctx):
                     ck.bad('C13-D2', f.qual, norm_text(n), 'the unfinished-item count is written outside ItemQueue', f.loc(n))
     pi = repo.func(IQ + '.put_item')
     pcfg = ctx.cfg(pi)
-    inc = F.stmt_nodes_where(pcfg, lambda n: n.kind == 'stmt' and isinstance(n.stmt, ast.AugAssign) and U.is_self_attr(n.stmt.target, '_unfinished_items'))
+    inc = F.stmt_nodes_where(pcfg, lambda n: n.kind == 'stmt' and U.step_of(n.stmt) is not None and U.is_self_attr(U.step_of(n.stmt)[0], '_unfinished_items'))
     enq = F.stmt_nodes_where(pcfg, F.has_call('put_nowait', recv='self._queue'))
     okpair = len(inc) == 1 and len(enq) == 1
     if okpair:
@@ -246,7 +248,8 @@ def run(ctx):
     ck.expect(okp, 'C13-D4', ppn.qual, 'put_nowait((POISON_PRIORITY, n, POISON_PILL))', 'poison pill entry changed', ppn.loc())
     # entry counter strictly increases (ties never compare items)
     for f in (pi, ppn):
-        okc = any(norm_text(s) == 'self._entry_count += 1' for s in walk_no_nested(f.node) if isinstance(s, ast.AugAssign))
+        okc = any(U.step_of(s) is not None and U.is_self_attr(U.step_of(s)[0], '_entry_count') and U.step_of(s)[1] == 1
+                  for s in walk_no_nested(f.node) if isinstance(s, (ast.AugAssign, ast.Assign)))
         ck.expect(okc, 'C13-D4', f.qual, 'entry counter incremented per entry', 'entry counter not incremented: equal keys would compare work items', f.loc())
     kw = repo.func(PIPE + ':Pipeline._kill_workers')
     okk = any(isinstance(lp, ast.For) and norm_text(lp.iter) in ('range(len(self._worker_tasks))', 'self._worker_tasks', 'tuple(self._worker_tasks)')
